@@ -12,7 +12,8 @@ Clause(o) ==
     IF o.effect /\ ~Granted(c) THEN "NoSelfGrant"
     ELSE IF o.effect /\ ~MayRun(c) THEN "VarsPathContained"
     ELSE IF o.bit /\ ~c.caller THEN "OptInOnlyFromCallerOrEnv:capability-flag-set"
-    ELSE IF ~o.ok /\ ~o.sigma THEN "NonSigmaException"
+    \* (a text with a Python-object tag is refused by the YAML layer itself, with its own error class)
+    ELSE IF ~o.ok /\ ~o.sigma /\ ~(c.kind = "ytag" /\ o.exc = "ConstructorError") THEN "NonSigmaException"
     ELSE IF ~Granted(c) /\ o.ok /\ "top" \notin c.inject THEN "SecurityErrorAtFirstNeed:converted"
     \* (without grant the run must end in a Sigma error: the security error, possibly wrapped, or - for
     \*  nestings the loader does not support at all - a configuration error; checked by the clauses above)
